@@ -332,7 +332,8 @@ def campaign(ctx):
             if rb not in ab:
                 f = kinfo[an][0]
                 findings.append((an, "keep-stream", "the same %d ints give another DWVW bit stream in AIFF-C (%s) than in the headerless file (%s): the %d bytes of the RAW file do not occur in the AIFF-C file"
-                                 % (kinfo[an][2], an, rn, len(rb)), "--- script\n" + kinfo[an][4]))
+                                 % (kinfo[an][2], an, rn, len(rb)),
+                                 "expect-last %s\n--- script\n%s\n" % (rb.hex(), "\n".join(kinfo[an][4].split("\n")[:4]))))      # the AIFF-C dump must CONTAIN the headerless stream
     return findings, stats
 
 
